@@ -683,7 +683,7 @@ def run_writer_check(prop, tier, seed, faults, design_ref):
         # the real buffered socket sinks with their statistics read while lines are buffered: reading is not one of the
         # occasions on which the sink may write (an emit that does not fit, a flush, the drop)
         from . import sock as sock_driver
-        scs = sock_driver.stats_sample_cases(rng, 2000 if thorough else 60)
+        scs = sock_driver.stats_sample_cases(rng, 2000 if thorough else 60) + sock_driver.big_udp_cases()
         try:
             simpl = common.run_harness("sock", scs, shards=min(8, common.NCPU))
         except common.CheckFailure as e:
